@@ -304,7 +304,16 @@ class HostileFtp:
                 conn.send(s)
             if verb in (b'RETR', b'LIST', b'MLSD') and rep[:1] == b'1':
                 after = self.plan.get('after', b'226 done\r\n')
-                asyncio.get_event_loop().call_later(0.01, lambda: (conn.send(after), self.plan.get('close_ctrl') and conn.close()))
+                loop = asyncio.get_event_loop()
+                # a few loop iterations later (no real time passes in `settle`)
+                def later(n=5):
+                    if n:
+                        loop.call_soon(later, n - 1)
+                    else:
+                        conn.send(after)
+                        if self.plan.get('close_ctrl'):
+                            conn.close()
+                loop.call_soon(later)
 
 
 class HostileData:
